@@ -135,7 +135,8 @@ func (e *Engine) frameFormula(st *State) Term {
 				}
 			}
 		}
-		guard := "(and (< 0 q_r) (< q_r " + e.next0.S + ")"
+		qr := e.allocID(Term{"q_r", SInt})
+		guard := "(and (< 0 " + qr.S + ") (< " + qr.S + " " + e.next0.S + ")"
 		if len(notRef) > 0 {
 			guard += " " + strings.Join(notRef, " ")
 		}
